@@ -447,7 +447,7 @@ func main() {
 			"distinct_nontrivial": nd,
 			"rule": "one evaluation = one simulated run (a fresh World: the rewritten sonic sources on the stub kernel, one tape). " +
 				"A run is non-trivial when at least one fault kind or reach probe fired in it; distinct = distinct 64-bit hashes of the complete event trace " +
-				"(every kernel call with its result, every delivery, every oracle-visible step) among the non-trivial runs. " + meta.Rule,
+				"(every kernel call with its result, every delivery, every oracle-visible step) combined with the choice tape that produced it, among the non-trivial runs. " + meta.Rule,
 			"samples":                samples,
 			"exhaustive":             false,
 			"directed_runs":          total.Directed,
